@@ -11,7 +11,9 @@ PROPS_FILES = ['Gin/Props/C10.lean']
 ANCHOR_FILES = ['config.py']
 RULE = ('C01 generator with gin.REQUIRED placed as signature default (positional-or-keyword and keyword-only), as '
         'positional argument, as keyword argument, into *args and **kwargs, with a random subset of the marked parameters '
-        'bound under random scopes; registrations with a REQUIRED default on a denylisted / non-allowlisted parameter; '
+        'bound under random scopes; registrations with a REQUIRED default on a denylisted / non-allowlisted parameter; one '
+        'Python function registered again under further names (accepted and rejected registrations); functions under a '
+        'functools.wraps decorator (own signature *args/**kw, names from the inner function); '
         'non-trivial = a call carrying at least one marker (caller- or signature-level) that is decided by the overlay '
         '(filled or reported missing); distinct = distinct canonical op list')
 TRUSTED_BASE = ['Lean 4.33 kernel', 'axioms ⊆ {propext, Classical.choice, Quot.sound}', 'JSON glue (Gin/Drv)',
@@ -37,18 +39,43 @@ def gen_case(rng):
       else:
         bad['allow'], bad['deny'] = [rng.choice(others)], []
       ops.append(bad)
+  # the same Python function registered a second (and third) time under another name: each registration
+  # looks at the signature afresh - its REQUIRED defaults are as binding for the later ones as for the first
+  for reg in list(regs):
+    if reg['_kind'] == 'fn' and reg['_api'] == 'external' and rng.random() < 0.6:
+      reqd = [p[0] for p in reg['sig']['pos'] + reg['sig']['kwonly'] if p[1] is not None and p[1]['v'] == G.REQ]
+      again = dict(reg, obj=len(regs), name='again%d' % reg['obj'], _selector=reg['module'] + '.again%d' % reg['obj'],
+                   _reuse=reg['obj'], _name_arg='again%d' % reg['obj'])
+      regs.append(again)
+      ops.append(again)
+      if reqd and rng.random() < 0.5:   # ... and a denylist hiding one of them is rejected every time
+        ops.append(dict(again, obj=len(regs) + 20, name='zzz', _selector=reg['module'] + '.zzz', _name_arg='zzz',
+                        allow=[], deny=[rng.choice(reqd)]))
+  # a function under an ordinary functools.wraps decorator: its parameter names are those of the inner function,
+  # but a call binds against (*args, **kw) - every positional argument is an unnamed one
+  for reg in regs:
+    if reg['_kind'] == 'fn' and '_reuse' not in reg and rng.random() < 0.2 and not any(
+        o.get('_reuse') == reg['obj'] for o in ops):
+      reg['innerSig'] = reg['sig']
+      reg['sig'] = {'pos': [], 'kwonly': [], 'varargs': True, 'varkw': True}
   focus = G.rand_scope(rng, 3)
   scopes = [focus[:i] for i in range(len(focus) + 1)] + [focus[:1] + ['c']]
   body = []
   for _ in range(rng.randint(0, 9)):
-    b = G.gen_bind(rng, rng.choice(regs), rng.choice(scopes))
+    reg = rng.choice(regs)
+    b = G.gen_bind(rng, dict(reg, sig=reg.get('innerSig') or reg['sig']), rng.choice(scopes))
     if b:
       body.append(b)
   for _ in range(rng.randint(1, 4)):
     reg = rng.choice(regs)
     tgt = rng.choice(scopes)
-    body.insert(rng.randint(len(body) // 2, len(body)),
-                G.gen_call(rng, reg, G.gen_enter(rng, tgt), w_required=0.3))
+    call = G.gen_call(rng, reg, G.gen_enter(rng, tgt), w_required=0.3)
+    if reg.get('innerSig'):
+      inner_names = [p[0] for p in reg['innerSig']['pos'] + reg['innerSig']['kwonly']]
+      call['args'] = [G.REQ if rng.random() < 0.3 else G.caller_value(rng) for _ in range(rng.choice([0, 0, 1, 2]))]
+      call['kwargs'] = [[n, G.REQ if rng.random() < 0.4 else G.caller_value(rng)]
+                        for n in inner_names + ['e1'] if rng.random() < 0.4]
+    body.insert(rng.randint(len(body) // 2, len(body)), call)
   ops += body
   return {'dom': 'gin', 'ops': ops}
 
